@@ -436,6 +436,10 @@ type Script struct {
 	Hold  chan struct{} // when set: an exhausted script blocks until the harness closes this channel ("the base listener is closed")
 	Final error         // what an exhausted script reports (default net.ErrClosed): a closed listener may report another error
 	Polls int           // Accept calls made after the script was exhausted
+	// Gate, when set, is waited on before the connection with index GateAt is handed out: the harness decides when
+	// that connection "arrives" (e.g. after it has registered another sub-listener).
+	Gate   chan struct{}
+	GateAt int
 }
 
 func (l *Script) Accept() (net.Conn, error) {
@@ -454,6 +458,9 @@ func (l *Script) Accept() (net.Conn, error) {
 			return nil, l.Final
 		}
 		return nil, net.ErrClosed
+	}
+	if l.Gate != nil && l.I == l.GateAt {
+		<-l.Gate
 	}
 	c, e := l.Conns[l.I], l.Errs[l.I]
 	l.I++
